@@ -653,6 +653,8 @@ def gen_textfile(rng):
         if rng.random() < 0.15:
             lines.append(rng.choice(["#", "", "# block"]))
         cells = model_row_text(d[k])
+        if rng.random() < 0.1 and cells:
+            cells[rng.randrange(len(cells))] = rng.choice(["", "", " ", "0", "-", "1 2", "a"])   # empty / odd cells in typed columns
         kk = str(k)
         c = rng.random()
         if c < 0.03:
